@@ -93,16 +93,18 @@ def run(tier, seed):
     if tier == 'quick':
         pairs = [(a, b) for a, b in pairs if a[0].startswith('compile') or a[0].startswith('match')]
         forced = [(a, b) for a, b in pairs if a is not b and (('ns-' in a[0] and 'ns-' in b[0]) or ('custom-' in a[0] and 'custom-' in b[0]) or ('nested-' in a[0] and 'nested-' in b[0])
-                                                               or ('invalid-' in a[0] and 'invalid-' in b[0]))]
+                                                               or ('invalid-' in a[0] and 'invalid-' in b[0])
+                                                               or ('detached' in a[0] and 'detached' in b[0]))]
+        must = [pq for pq in forced if 'detached' in pq[0][0]]
         pairs = rnd.sample([pq for pq in pairs if pq[1][0] != 'flood of new names' and pq[0][0] != 'flood of new names'], 30) + \
-            rnd.sample(forced, min(14, len(forced)))
+            rnd.sample(forced, min(14, len(forced))) + must
         flood = next(o for o in OPS if o[0] == 'flood of new names')
         exhaustive = [(a, flood) for a in OPS if a[0] in ('select nth', 'compile plain', 'match detached 1')]
         pairs += exhaustive
     else:
         # every pair of operations would take many hours at 100+ preemption points each: all pairs that share state by
         # construction plus a large sample of the rest
-        special = [(a, b) for a, b in pairs if a is not b and any(t in a[0] and t in b[0] for t in ('ns-', 'custom-', 'nested-', 'invalid-'))]
+        special = [(a, b) for a, b in pairs if a is not b and any(t in a[0] and t in b[0] for t in ('ns-', 'custom-', 'nested-', 'invalid-', 'detached'))]
         flood = next(o for o in OPS if o[0] == 'flood of new names')
         pairs = special + [(a, flood) for a in OPS if a is not flood][:12] + rnd.sample(pairs, 160)
     nk = 25 if tier == 'quick' else 80
